@@ -39,3 +39,10 @@ def run(ctx):
     _world.validate_runs(ctx, runs, "random histories, residents modified with the explicit register/deregister calls", expect_clean=False)
     runs = _world.random_runs(ctx, n, kinds=ALLK, mods="any", length=40, weights=NOQ)
     _world.validate_runs(ctx, runs, "random histories, residents modified with and without register/deregister", expect_clean=False)
+    # the explicit register / deregister calls on their own, also for agents that are not resident: whatever such a call does to
+    # the mirror is the caller's doing (deviation RAW, tolerated here); every operation after it must still be the specification's
+    # step from the state reached - a join that meets a hand-registered component stops half-way exactly as modelled (JoinHalfway)
+    ctx.tolerated = {"RAW"}
+    runs = _world.random_runs(ctx, n, kinds=ALLK, mods="raw", length=40, weights=NOQ)
+    _world.validate_runs(ctx, runs, "random histories with the low-level register / deregister calls on their own", expect_clean=False)
+    ctx.tolerated = set()
